@@ -751,14 +751,26 @@ pub fn async_ring_accounting(rounds: u64) -> LiveResult {
         let items = [1usize, 4, 8, 64][(r % 4) as usize];
         let bad = rt.block_on(async move {
             let c = build_async_ttl(1_000_000, 64, items, 3_600_000, RecCallback::default(), true);
-            let per = 3000u64;
+            let per = 12_000u64;
             let tasks = 6u64;
+            // start gate: under load the runtime may otherwise run the tasks one after another (a
+            // worker woken late finds the others finished), and then nothing overlaps
+            let started = Arc::new(AtomicU64::new(0));
             let mut hs = Vec::new();
             for t in 0..tasks {
                 let c = c.clone();
+                let started = started.clone();
                 hs.push(tokio::spawn(async move {
+                    started.fetch_add(1, Ordering::SeqCst);
+                    let t0 = Instant::now();
+                    while started.load(Ordering::SeqCst) < 4 && t0.elapsed() < Duration::from_secs(5) {
+                        tokio::task::yield_now().await;
+                    }
                     for i in 0..per {
                         let _ = c.get(&mk_key((t * 7 + i) % 50, 0)).await;
+                        if i % 1024 == 1023 {
+                            tokio::task::yield_now().await;
+                        }
                     }
                 }));
             }
